@@ -6,6 +6,7 @@ import (
 	"fmt"
 	"hash/fnv"
 	"os"
+	"runtime/debug"
 	"sort"
 	"strings"
 	"time"
@@ -229,6 +230,42 @@ func panicSite(stack string) string {
 	return "unknown"
 }
 
+// panicInCodeUnderTest: does the innermost non-runtime frame of the panicking goroutine belong to the repository
+// (and not to the harness or the shims)?
+func panicInCodeUnderTest(stack string) bool {
+	lines := strings.Split(stack, "\n")
+	after := false
+	for _, l := range lines {
+		if strings.HasPrefix(l, "\t") || strings.HasPrefix(l, " ") {
+			continue
+		}
+		if strings.HasPrefix(l, "panic(") {
+			after = true
+			continue
+		}
+		if !after || strings.HasPrefix(l, "runtime.") || strings.HasPrefix(l, "runtime/") {
+			continue
+		}
+		return strings.HasPrefix(l, "github.com/B1NARY-GR0UP/originium")
+	}
+	return false
+}
+
+// guard runs f, a direct-mode (unscheduled) call sequence into the code under test, and turns a panic raised by
+// that code into an oracle error <prefix>/panic/<site>; a panic of the harness itself is passed on.
+func guard(prefix string, f func() error) (err error) {
+	defer func() {
+		if r := recover(); r != nil {
+			st := string(debug.Stack())
+			if !panicInCodeUnderTest(st) {
+				panic(fmt.Sprintf("%v\n%s", r, st))
+			}
+			err = oerr(prefix+"/panic/"+panicSite(st[strings.Index(st, "panic("):]), "the code under test panicked: %v\n%s", r, st)
+		}
+	}()
+	return f()
+}
+
 // ExploreSched runs the explorer over a scenario for increasing budgets and reports into c.
 func ExploreSched(c *Ctx, sc vsched.Scenario, o SchedOpts) {
 	if o.MaxSteps == 0 {
@@ -356,6 +393,12 @@ func RunUnit(prop, tier string, u Unit, deadline time.Time, replay *ReplaySpec, 
 	func() {
 		defer func() {
 			if r := recover(); r != nil {
+				st := string(debug.Stack())
+				if panicInCodeUnderTest(st) {
+					// no unit catches this panic with its case at hand: still a verdict on the code, not an engine failure
+					c.Violation(strings.ToLower(prop)+"/panic/"+panicSite(st[strings.Index(st, "panic("):]), fmt.Sprintf("the code under test panicked in unit %s: %v\n%s", u.Name, r, st), nil, nil)
+					return
+				}
 				c.Res.EngineError = fmt.Sprintf("unit panicked: %v", r)
 			}
 		}()
